@@ -191,6 +191,39 @@ def api_job(job):
     return out
 
 
+def api_called_job(seed):
+    """through the client: every contest called for its leader -> no uncertainty left in the summary (state office and district office)"""
+    from harness import run_impl
+
+    rng = random.Random(seed)
+    office = ["S", "H"][seed % 2]
+    extra = {"n_districts": 3, "n_units": 120} if office == "H" else {"n_units": 90}
+    case = gen.gen_case(rng, pi_method="bootstrap", office=office, n_states=2, n_unexpected=0, alphas=[0.9], blocklist=False,
+                        aggregates=["postal_code", "district", "unit"] if office == "H" else ["postal_code", "unit"], **extra)
+    r0 = run_impl.run_case(case)
+    out = {"seed": seed, "office": office, "ok": r0["ok"], "exc": r0["exc"]}
+    if not r0["ok"]:
+        return out
+    tbl = r0["tables"]["district_data" if office == "H" else "state_data"]
+    name = (lambda row: f"{row['postal_code']}_{row['district']}") if office == "H" else (lambda row: row["postal_code"])
+    rows = tbl.to_dict("records")
+    lhs = [name(x) for x in rows if x["pred_margin"] > 0]
+    rhs = [name(x) for x in rows if x["pred_margin"] <= 0]
+    case["params"].update({"lhs_called_contests": lhs, "rhs_called_contests": rhs})
+    r = run_impl.run_case(case, want_client=True)
+    out.update({"ok": r["ok"], "exc": r["exc"], "lhs": lhs, "rhs": rhs})
+    if not r["ok"]:
+        return out
+    weights = {name(x): float(3 + 2 * i) for i, x in enumerate(rows)}
+    try:
+        df = r["client"].get_national_summary_votes_estimates(weights, 7, [0.7, 0.9])
+        out["summary"] = df.to_dict("records")
+        out["expected"] = 7 + sum(weights[n] for n in lhs)
+    except Exception as e:  # noqa: BLE001
+        out["sum_exc"] = (type(e).__name__, str(e)[:200])
+    return out
+
+
 def run(chk):
     ok, rep = chk.proofs()
     chk.assumptions += ["bootstrap margins are oracle inputs; in the uncorrelated mode the columns picked by argsort among tied national totals are not modelled "
@@ -274,6 +307,23 @@ def run(chk):
             for a in (0.7, 0.9):
                 if not (row[f"lower_{a}"] <= row["agg_pred"] <= row[f"upper_{a}"]):
                     chk.violation(f"API national summary not ordered at level {a}: {row}", replay, {"kind": "order"})
+    # (d) every contest called, through the client
+    for o in core.pmap(api_called_job, [rng.randint(0, 2**30) * 2 + k % 2 for k in range(4 if chk.tier == "quick" else 24)]):
+        chk.count({"api_all_called": o["office"], "ok": o["ok"]}, nontrivial=bool(o["ok"]), sample={"stream": "all contests called", "office": o["office"], "summary": o.get("summary") or o.get("sum_exc") or o.get("exc")})
+        replay_c = {"kind": "api-called", "seed": o["seed"]}
+        if not o["ok"]:
+            if o["exc"] and o["exc"][0] != "ModelNotEnoughSubunitsException":
+                chk.violation(f"run with every contest called failed: {o['exc']}", replay_c, {"kind": "raises"})
+            continue
+        if "sum_exc" in o:
+            chk.violation(f"national summary with every contest called failed ({o['office']} office): {o['sum_exc']}", replay_c, {"kind": "raises"})
+            continue
+        for row in o["summary"]:
+            vals = [v for k_, v in row.items() if isinstance(v, (int, float)) and not isinstance(v, bool)]
+            if any(abs(v - o["expected"]) > 0.0051 for v in vals):
+                chk.violation(f"{o['office']} office, every contest called for its leader (left: {o['lhs']}): summary {row} but prediction and both bounds should all be {o['expected']}",
+                              replay_c, {"kind": "called"})
+                break
     if not ok and not [v for v in chk.violations if not v["no_input"]]:
         chk.violation("proof obligations of C08 no longer check", {"theorem_file": "coq/Properties/C08.v", "log": rep.get("log_tail", "")[-1500:]}, {"kind": "proof-broken"}, no_input=True)
     return chk.finish(RULE, extra={"injected": len(outs), "histories": len(houts), "api_histories": len(aouts)})
@@ -281,6 +331,10 @@ def run(chk):
 
 def replay(chk, payload):
     r = payload["replay"]
+    if r.get("kind") == "api-called":
+        o = api_called_job(r["seed"])
+        print(json.dumps(o, indent=1, default=str))
+        return 0
     if r["kind"] == "inject":
         o = inj_job(tuple(r["job"]))
         print(json.dumps({k: o.get(k) for k in ("triple", "exc", "wrong", "weights", "base", "pred_adj", "lhs", "rhs", "stops")}, indent=1, default=str))
